@@ -7,6 +7,7 @@ it with the real library and steps through the calls; after every call the proje
 specification's exact value.
 """
 import copy
+import zlib
 import math
 import traceback
 from fractions import Fraction
@@ -151,6 +152,10 @@ def replay(scn, ui, python, cse=True, presentation=None, force_ekf=False):
     est = None
     kept = []        # results handed out earlier must not change when the model is used again
     kept_h = []
+    stored = {}      # sensor key -> (innovation, S) as stored at its last update
+    ghost = None
+    if want_ekf and any(st["act"] == "Update" for st in scn["steps"]) and zlib.crc32(str(scn.get("_id", "")).encode()) % 3 == 0:
+        ghost = build_py(d, ui, python, cse, True, presentation)[0]      # a second filter object built from the same definition
     asym = bool(resolve_presentation(presentation, d).get("variety"))
     lay = scn.get("layout")
     if lay:
@@ -282,7 +287,11 @@ def replay(scn, ui, python, cse=True, presentation=None, force_ekf=False):
             elif act == "Update":
                 key = st["key"]
                 z = {n: fl(q) for n, q in named(st["z"]).items()}
-                reading = impl.make_reading(key, **z)
+                # keyword order is the caller's business (C13): written sorted, reversed or rotated, the reading is the same
+                zk = sorted(z)
+                how = zlib.crc32(("%s:%d" % (scn.get("_id", ""), i)).encode()) % 3
+                zk = zk if how == 0 else (zk[::-1] if how == 1 else zk[1:] + zk[:1])
+                reading = impl.make_reading(key, **{n: z[n] for n in zk})
                 import numpy as np
                 s0, c0 = copy.deepcopy(est[0].data), copy.deepcopy(est[1].data)
                 nxt = impl.sensor_model(est[0], est[1], sensor_key=key, sensor_reading=reading)
@@ -306,6 +315,20 @@ def replay(scn, ui, python, cse=True, presentation=None, force_ekf=False):
                                                    expected="unmodified", observed="modified"))
                 est = (nxt.state, nxt.covariance)
                 res.trace.append({"x": ox, "P": oP, "innov": oin, "S": oS, "outcome": st["outcome"]})
+                # what the filter stored for a sensor stays what it was until THAT sensor is updated again, whatever other
+                # sensors (or another filter object) are given
+                stored[key] = (impl.innovations[key].copy(), impl.sensor_prediction_uncertainty[key].copy())
+                if ghost is not None:
+                    gz = impl.make_reading(key, **{n: v + 3.0 for n, v in z.items()})
+                    gx = ghost.State.from_data(s0 + 1.0)
+                    try:
+                        ghost.sensor_model(gx, ghost.Covariance.from_data(c0), sensor_key=key, sensor_reading=ghost.make_reading(key, data=gz.data))
+                    except (AssertionError, ZeroDivisionError, ValueError, FloatingPointError, OverflowError):
+                        pass          # the perturbed point may be outside the model's domain; only its side effects matter
+                for k2, (inn0, S0) in stored.items():
+                    if not (np.array_equal(impl.innovations[k2], inn0) and np.array_equal(impl.sensor_prediction_uncertainty[k2], S0)):
+                        res.mismatches.append(Mismatch(step=i, what="stored-innovation-changed", name=k2,
+                                                       expected="as recorded at the last update of sensor %s" % k2, observed="changed after an update of sensor %s" % key))
             else:
                 res.skipped = "unknown act %s" % act
                 return res
